@@ -3,12 +3,12 @@
    Proved: the ring buffer update rule of handleValidatorSignature (flip the bit at offset mod W, move the
    counter only when the bit changes) IS a sliding window, for every window size and every vote sequence
    (App/RingProofs.v): the counter equals the misses among the most recent min(n, W) votes and the array holds
-   exactly those votes. That handle_signature applies this rule to the stored bits, and the exact jailing
-   block, are tied to the code by the oracle c08 (recomputes the window from the vote stream for every vote of
-   every history) and by correspondence of counter / bit array / offset; that composition is not a Coq theorem. *)
+   exactly those votes; and handle_signature applies exactly this rule to the stored bits / counter / offset, or
+   resets them when it jails (App/RingTie.v). Oracle + correspondence (not a Coq theorem): the composition over a
+   whole history interleaved with other operations, and \"jailed at exactly the first crossing after start+W\". *)
 From Coq Require Import List ZArith NArith Bool.
 From PM Require Import Base.Bytes Store.KV Store.MergeProofs Num.IntModel Num.DecModel Num.DecProofs
-  App.Model App.BankProofs App.TxProofs App.KeyProofs App.PosProofs App.RingProofs App.Examples.
+  App.Model App.BankProofs App.TxProofs App.KeyProofs App.PosProofs App.RingProofs App.RingTie App.Examples.
 Import ListNotations.
 Local Open Scope Z_scope.
 
@@ -23,6 +23,17 @@ Proof. exact (ring_is_sliding_window W votes). Qed.
 Theorem C08_counter_is_misses_in_window W votes : (0 < W)%nat ->
   snd (fst (fold_left (ring_step W) votes ring0)) = cnt (firstn W (rev votes)).
 Proof. exact (ring_counter_is_window_misses W votes). Qed.
+(* ... and handleValidatorSignature applies exactly that rule to the validator's stored bit array, counter and
+   offset - or, when the threshold is crossed (slash + jail), resets them to the empty ring so that the same misses
+   are not punished again *)
+Theorem C08_one_vote_is_one_ring_step s a p sg s' si :
+  dsorted true (missed s) -> dsorted true (sinfo s) -> aget (sinfo s) a = Some si -> 0 <= si_offset si ->
+  0 < p_window (pp s) < 256 ^ 8 -> handle_signature s a p sg = Some s' ->
+  exists si', aget (sinfo s') a = Some si' /\
+    (ring_eq (Z.to_nat (p_window (pp s))) (ring_of (missed s') a si')
+             (ring_step (Z.to_nat (p_window (pp s))) (ring_of (missed s) a si) (negb sg)) \/
+     ring_eq (Z.to_nat (p_window (pp s))) (ring_of (missed s') a si') ring0).
+Proof. exact (handle_signature_is_ring_step s a p sg s' si). Qed.
 Example C08_ex_ring : snd (fst (fold_left (ring_step 3) [true; true; false; true; false; false] ring0)) = 1.
 Proof. vm_compute. reflexivity. Qed.
 Example C08_ex_half_of_odd_window :
@@ -33,3 +44,4 @@ Example C08_ex_half_of_odd_window :
 Proof. split; vm_compute; reflexivity. Qed.
 Print Assumptions C08_threshold_partial.
 Print Assumptions C08_ring_buffer_is_sliding_window.
+Print Assumptions C08_one_vote_is_one_ring_step.
